@@ -138,6 +138,13 @@ def judge_worker_rec(spec, rec, well_behaved=True):
             fails.append(("too-many-records", "%d records for one request" % len(recs)))
         faulted = any(e[0] in ("sendall", "sendfile", "send100", "shutdown") and e[2] for e in evs)
         eff = win.get("eff")
+        # the application call returned its iterable and the iterable is well-behaved: the application's part is complete; if the
+        # client has gone away and a write fails, the request still has ONE record (the workers log in a `finally`)
+        returned = sum(1 for e in evs if e[0] == "appret")
+        if returned == 1 and napp == 1 and len(recs) != 1 and faulted and eff is not None and sane(eff):
+            fails.append(("record-count", "%d records for a request whose application did everything right (its call returned, its "
+                          "iterable is well-behaved) and whose client went away: a socket write failed" % len(recs)))
+            continue
         if faulted or eff is None or not sane(eff):
             continue
         # the application call completed
